@@ -279,12 +279,17 @@ pub fn c14(t: &Trace, r: &mut Report) {
                     clean = true;
                 }
                 let step = x as f64 - run_from;
-                if settled && clean && step.abs() > 1e-3 && eff >= 0.0 {
+                if settled && clean && step.abs() > 1e-5 && eff >= 0.0 {
                     let te = (eff as f64).min(10.0);
                     let n = te * sr as f64;
                     let cov = (y - run_from) / step;
                     let alpha = f32::from_bits(coeffs.1) as f64;
                     let rh = rho(x.abs().max(run_from.abs() as f32) as f64, alpha) / step.abs();
+                    // small steps are judged too, as long as the f32 resolution of the filter leaves something to judge
+                    if step.abs() <= 1e-3 && rh > 0.3 {
+                        last_y = y;
+                        continue;
+                    }
                     if n >= 100.0 {
                         if run_n == n.ceil() as u64 {
                             r.eval();
